@@ -78,7 +78,7 @@ def rational(expr, symbol=None):
         return _pmul(_const(-1), num), den
     if isinstance(expr, ast.UnaryOp) and isinstance(expr.op, ast.UAdd):
         return rational(expr.operand, symbol)
-    if isinstance(expr, (ast.Name, ast.Attribute, ast.Call, ast.Subscript)):
+    if isinstance(expr, (ast.Name, ast.Attribute, ast.Call, ast.Subscript, ast.IfExp)):
         return _sym(symbol(expr)), _const(1)
     raise NotAlgebraic(ast.unparse(expr))
 
